@@ -54,10 +54,11 @@ def run(ctx, report):
                    "row_group_offsets and codecs, single-file / hive / hive+partition_on, datasets with >10 part files and with "
                    "numbering gaps, categoricals with equal and with different label sets; non-trivial = history of >=2 writes with "
                    ">=2 row groups; distinct by (layout, step, batch shape)")
-    nscen = 10 if ctx.quick else 60
+    nscen = 12 if ctx.quick else 72
     reqs = []
     for s in range(nscen):
-        layout = ["simple", "hive", "hive-part", "simple", "hive-many", "hive-gap", "simple-cat", "hive-cat", "simple-catdiff", "hive"][s % 10]
+        layout = ["simple", "hive", "hive-part", "simple", "hive-many", "hive-gap", "simple-cat", "hive-cat", "simple-catdiff", "hive",
+                  "simple-catgrow", "hive-catgrow"][s % 12]
         cats_differ = layout.endswith("catdiff") or (layout.endswith("-cat") and False)
         schema = [("a", rng.choice(KINDS)), ("b", rng.choice(KINDS))]
         if "cat" in layout:
@@ -71,7 +72,8 @@ def run(ctx, report):
             os.remove(path)
         simple = layout.startswith("simple")
         n0 = rng.choice([3, 8, 20])
-        first = batch(rng, schema, n0 if layout != "hive-many" else 12, 0)
+        grow = [[f"L{j:03d}" for j in range(m)] for m in (3, 5, 200, 300, 301, 302, 303, 304, 305)]   # dictionaries that extend one another
+        first = batch(rng, schema, n0 if layout != "hive-many" else 12, 0, grow[0] if layout.endswith("catgrow") else None)
         kw = dict(write_index=False)
         offs0 = [0, n0 // 2] if layout != "hive-many" else list(range(12))
         try:
@@ -94,7 +96,12 @@ def run(ctx, report):
             cat_pool = None
             if cats_differ:
                 cat_pool = rng.choice([["y", "x"], ["x", "y", "w"], ["q"]])
+            if layout.endswith("catgrow"):
+                cat_pool = grow[step + 1]
+                n = max(n, 2)
             b = batch(rng, schema, n, 1000 * (step + 1), cat_pool)
+            if layout.endswith("catgrow") and n:
+                b["c"] = pd.Categorical(list(b["c"].astype(object))[:-1] + [cat_pool[-1]], categories=cat_pool)   # the newest label is used
             codec = rng.choice([None, None, "SNAPPY", "GZIP", "ZSTD"])
             offs = rng.choice([None, [0], [0, n // 2] if n > 1 else [0], 2])
             before_bytes = open(path, "rb").read() if simple else None
